@@ -1,6 +1,6 @@
 /-
 C16 — Merging and exploding shards preserves searchable content.  Property theorems; lemmas live in
-C16/{Lemmas,BuilderLemmas,CopyLemmas,MergeLemmas,ExplodeLemmas,WfLemmas}.lean.
+C16/{Lemmas,BuilderLemmas,CopyLemmas,MergeLemmas,ExplodeLemmas,WfLemmas,ReposLemmas}.lean.
 
 Statement (properties.jsonl): merging simple shards into a compound shard, and exploding a compound shard back into
 simple shards, preserves every live repository that has at least one document: searches over the result return the
@@ -12,7 +12,7 @@ tables (name, content, branch names, sub-repository path, language, category, sy
 with its repository's metadata.  The theorems hold for every list of input shards that pass `wfB` (checked by the driver
 on every real input), in every order.
 -/
-import ZoektModel.C16.WfLemmas
+import ZoektModel.C16.ReposLemmas
 namespace ZoektModel.C16
 
 theorem insertByPrio_perm (sh : Shard) (l : List Shard) : (insertByPrio sh l).Perm (sh :: l) := by
@@ -93,7 +93,7 @@ theorem explode_preserves (sh : Shard) (hwf : wfB sh = true) :
   refine ⟨outs, he, ?_, ?_⟩
   · rw [hfl, flat_eq]; simp [curFlat]
   · intro o ho
-    rcases hgood o ho with h | h
+    rcases hgood.1 o ho with h | h
     · cases h
     · exact h
 
@@ -107,6 +107,72 @@ theorem explode_drops_tombstoned (sh : Shard) (outs : List Shard) (hwf : wfB sh 
   unfold outShardOk at this
   simp only [Bool.and_eq_true, List.all_eq_true, Bool.not_eq_true'] at this
   exact this.1.2 r hr
+
+/-- an output in which every repository is live and has documents lists exactly its repositories -/
+theorem liveRepos_of_ok (o : Shard) (h : outShardOk o = true) : liveRepos o = o.repos := by
+  unfold outShardOk at h
+  simp only [Bool.and_eq_true, List.all_eq_true, Bool.not_eq_true', List.mem_range] at h
+  obtain ⟨⟨_, hlive⟩, hdocs⟩ := h
+  have key : ∀ (rs : List RepoMeta) (i : Nat), (∀ r ∈ rs, r.tomb = false) →
+      (∀ j, i ≤ j → j < i + rs.length → hasDocs o j = true) → liveReposAux o rs i = rs := by
+    intro rs
+    induction rs with
+    | nil => intro i _ _; rfl
+    | cons r rs ih =>
+      intro i hl hd
+      unfold liveReposAux
+      have h1 := hl r (by simp)
+      have h2 := hd i (Nat.le_refl _) (by simp)
+      simp only [h1, h2, Bool.not_false, Bool.and_self, if_true]
+      rw [ih (i + 1) (fun r' hr' => hl r' (List.mem_cons_of_mem _ hr'))
+        (fun j h1 h2 => hd j (by omega) (by simp at h2 ⊢; omega))]
+  exact key o.repos 0 hlive (fun j _ hj => hdocs j (by simpa using hj))
+
+/-- **C16, merge, the whole executable statement**: on well-formed inputs the model's output passes `checkMerge` — documents
+    and repositories (live, with documents) preserved up to order, output well-formed -/
+theorem C16_checkMerge (shards : List Shard) (hne : shards ≠ []) (hrep : ∀ sh ∈ shards, sh.repos ≠ [])
+    (hwf : ∀ sh ∈ shards, wfB sh = true) :
+    ∃ out, merge shards = some out ∧ checkMerge shards out = none := by
+  obtain ⟨out, h1, h2, h3, h4⟩ := merge_preserves shards hne hrep hwf
+  refine ⟨out, h1, ?_⟩
+  have hperm := sortByPrio_perm shards
+  have hrepos : (liveRepos out).Perm (shards.flatMap liveRepos) := by
+    rw [liveRepos_of_ok out h3, h4]
+    have : (sortByPrio shards).flatMap (fun sh => started sh sh.docs none) = (sortByPrio shards).flatMap liveRepos := by
+      apply List.flatMap_congr
+      intro sh hs
+      exact started_eq_liveRepos sh (wfB_sound sh (hwf sh (hperm.mem_iff.1 hs)))
+    rw [this]
+    exact hperm.flatMap_right liveRepos
+  have hdocs : (flat out).Perm (shards.flatMap flat) := h2 ▸ hperm.flatMap_right flat
+  unfold checkMerge
+  simp [h3, List.isPerm_iff.2 hrepos, List.isPerm_iff.2 hdocs]
+
+/-- **C16, explode, the whole executable statement** -/
+theorem C16_checkExplode (sh : Shard) (hwf : wfB sh = true) :
+    ∃ outs, explode sh = some outs ∧ checkExplode sh outs = none := by
+  have w := wfB_sound sh hwf
+  obtain ⟨outs, he, hfl, hgood, hrep⟩ := explodeLoop_spec sh sh.docs none none [] w.docs w.mono
+    (by intro l hl; cases hl) (Or.inl ⟨rfl, rfl⟩)
+  refine ⟨outs, he, ?_⟩
+  have hg : ∀ o ∈ outs, outShardOk o = true ∧ o.repos.length = 1 := by
+    intro o ho
+    rcases hgood o ho with h | h
+    · cases h
+    · exact h
+  have hrepos : outs.flatMap liveRepos = liveRepos sh := by
+    rw [← started_eq_liveRepos sh w]
+    have : outs.flatMap liveRepos = outs.flatMap (·.repos) :=
+      List.flatMap_congr (fun o ho => liveRepos_of_ok o (hg o ho).1)
+    rw [this, hrep]; simp [curRepos]
+  have hdocs : outs.flatMap flat = flat sh := by rw [hfl, flat_eq]; simp [curFlat]
+  unfold checkExplode
+  have a1 : outs.all outShardOk = true := List.all_eq_true.2 (fun o ho => (hg o ho).1)
+  have a2 : outs.all (fun o => o.repos.length == 1) = true :=
+    List.all_eq_true.2 (fun o ho => by simp [(hg o ho).2])
+  have p1 : (liveRepos sh).isPerm (liveRepos sh) = true := List.isPerm_iff.2 (List.Perm.refl _)
+  have p2 : (flat sh).isPerm (flat sh) = true := List.isPerm_iff.2 (List.Perm.refl _)
+  simp [a1, a2, hrepos, hdocs, p1, p2]
 
 /-! non-vacuity: two input shards (the second with a tombstoned and an empty repository, priorities out of order),
     documents on several branches, a sub-repository, two languages -/
